@@ -202,6 +202,11 @@ def interp_parse_seq(st, seq, dt):
     raise Unsupported("np.array of strings with dtype %r" % (dt,))
 
 
+@model('numpy.nonzero')
+def np_nonzero(interp, st, fr, args, kw):
+    return (WhereIdx(_arr(interp, st, args[0])),)
+
+
 @model('numpy.where')
 def np_where(interp, st, fr, args, kw):
     if len(args) != 1:
@@ -919,6 +924,13 @@ def call_method(interp, st, fr, obj, name, args, kw):
                 pass
             return Opaque('str')
         raise Unsupported("str.%s" % name)
+    if isinstance(obj, ObjRef) and st.heap[obj.addr].cls.startswith('<') and st.heap[obj.addr].cls != '<file>':
+        # abstract record objects built by contract set-ups (e.g. the content of a FITS file):
+        # method m is the attribute '%m' holding a SpecCallable
+        fn = st.heap[obj.addr].attrs.get('%' + name)
+        if fn is None:
+            raise Unsupported("method %s of abstract record %s" % (name, st.heap[obj.addr].cls))
+        return fn.fn(interp, st, args, kw)
     if isinstance(obj, ObjRef) and st.heap[obj.addr].cls == '<file>':
         from . import files
         if name == 'close':
